@@ -617,6 +617,72 @@ def history (c : Cfg α) (E : Ext α) (pol : Policy) (p : Preloads α) :
     let r := history c E pol p rest x.1
     (r.1, x.2 :: r.2)
 
+/-! ### the `cached_property` layer
+
+`AbstractInversion`'s quantities are `cached_property`s: the first read stores the returned array in
+the instance `__dict__`, later reads return that same array.  `curvature_reg_matrix` with a single
+linear object (abstract.py:410-416) takes the (possibly cached) `curvature_matrix` array, adds the
+regularization matrix INTO it, returns it, and `del`etes the `curvature_matrix` entry so that a later
+read recomputes it.  Below, caching is modelled at the level of the reads a caller makes (`Access`);
+reads nested inside an accessor recompute, which yields the same values (Proofs/PreloadCache.lean). -/
+
+/-- the heap and the instance `__dict__` of one inversion object -/
+structure CState (α : Type) where
+  heap : Heap α
+  cache : Access → Option Ref
+
+def CState.store {α : Type} (st : CState α) (a : Access) (r : Option Ref) : CState α :=
+  { st with cache := fun b => if b = a then r else st.cache b }
+
+/-- one read through the cached_property layer.  `delCache` = the line
+    `del self.__dict__["curvature_matrix"]` is present. -/
+def cachedAccess (c : Cfg α) (E : Ext α) (pol : Policy) (delCache : Bool) (w : Bool)
+    (p : Preloads α) (a : Access) (st : CState α) : CState α × Ref :=
+  match st.cache a with
+  | some r => (st, r)
+  | none =>
+    if a = Access.curvatureRegMatrix ∧ c.hasReg = true ∧ (c.nObjs == 1) = true then
+      -- curvature_matrix = self.curvature_matrix   (cached_property: stored if not yet there)
+      let x : Heap α × Ref := match st.cache Access.curvatureMatrix with
+        | some rf => (st.heap, rf)
+        | none => curvatureMatrix c E pol w p st.heap
+      -- curvature_matrix += self.regularization_matrix
+      let y := regularizationMatrix E p x.1
+      let h' := y.1.write x.2 (addBuf (y.1.read x.2) (y.1.read y.2))
+      let st1 : CState α := { heap := h', cache := st.cache }
+      -- del self.__dict__["curvature_matrix"]
+      let st2 := st1.store Access.curvatureMatrix (if delCache then none else some x.2)
+      (st2.store Access.curvatureRegMatrix (some x.2), x.2)
+    else
+      let x := access c E pol w p a st.heap
+      (({ heap := x.1, cache := st.cache } : CState α).store a (some x.2), x.2)
+
+/-- the reads of one inversion object, each copied out at once -/
+def readAllCached (c : Cfg α) (E : Ext α) (pol : Policy) (delCache : Bool) (w : Bool)
+    (p : Preloads α) : List Access → CState α → CState α × List (List α)
+  | [], st => (st, [])
+  | a :: as, st =>
+    let x := cachedAccess c E pol delCache w p a st
+    let rest := readAllCached c E pol delCache w p as x.1
+    (rest.1, x.1.heap.read x.2 :: rest.2)
+
+/-- a new inversion object starts with an empty `__dict__` -/
+def inversionCached (c : Cfg α) (E : Ext α) (pol : Policy) (delCache : Bool) (p : Preloads α)
+    (accs : List Access) (h : Heap α) : Heap α × Option (List (List α)) :=
+  let w := useWTilde c p.useWTilde
+  if w && !E.wtCheck (wtVal E p h) then (h, none)
+  else
+    let y := readAllCached c E pol delCache w p accs { heap := h, cache := fun _ => none }
+    (y.1.heap, some y.2)
+
+def historyCached (c : Cfg α) (E : Ext α) (pol : Policy) (delCache : Bool) (p : Preloads α) :
+    List (List Access) → Heap α → Heap α × List (Option (List (List α)))
+  | [], h => (h, [])
+  | accs :: rest, h =>
+    let x := inversionCached c E pol delCache p accs h
+    let r := historyCached c E pol delCache p rest x.1
+    (r.1, x.2 :: r.2)
+
 end Impl
 
 end Preload
